@@ -86,6 +86,26 @@ CHECKS["C20"] = dict(
     note="entries whose handling the statement leaves open (links, '.', duplicates) are judged by confinement only; interleavings of the lock protocol are staged through the HTTP server rather than a hook",
     design="5 C20")
 
+CHECKS["C07"] = dict(
+    engine="tlc+injected-test",
+    technique="TLA+ transcription of Go type identity over a recursive type grammar; TLC enumerates base terms and every single-point mutation (near-miss pairs) with the verdict; an injected test builds the pairs as go/types values and checks that ssa/abi's canonical descriptor name is shared exactly when identical",
+    text="~4,600 pairs (4,200 near misses differing in one attribute: field name, tag, embedding, package of an unexported name, variadic, direction, array length, key/elem swap, type argument, scope, package) get the verdict of the TLA+ identity relation; Builder.TypeName - the weak-ODR symbol name under which the descriptor is merged - must coincide exactly then. go/types.Identical validates the transcription on every pair.",
+    note="the run-time half (assertion = pointer comparison of merged descriptors) is covered by compiled programs only for a sample; interface satisfaction is exercised through GoMachine programs (C01) rather than enumerated here",
+    design="5 C07")
+CHECKS["C12"] = dict(
+    engine="tlc-trace-validation+llgo",
+    technique="TLA+ initialisation law (InitOrder: InitVar / RunInit / Main with Go's next-ready-variable rule) model-checked on the generated worlds and used for TLC trace validation of the order printed by llgo-compiled multi-package programs",
+    text="Seeded worlds (import DAGs of 2-5 packages, variables with forward, function-mediated and cross-package references, several init functions over two files, "
+         "patched std packages used inside initialisers) are compiled by llgo; every printed initialisation trace must be a behaviour of InitOrder and every printed value must be the one computed from fully initialised dependencies.",
+    note="order among independent packages is left free; only build mode exe; patched std packages observed through their API results",
+    design="5 C12")
+CHECKS["C16"] = dict(
+    engine="tlc+injected-test+go-list",
+    technique="TLA+ transcription of cmd/go's embed resolution (Embed/EmbedCases/EmbedLine); TLC enumerates directory trees x pattern lists and directive lines with the expected outcome; replayed into the real internal/goembed functions on materialised trees; go list validates the spec",
+    text="~1,500 trees x 321 pattern lists in quick (all trees up to the bounds in thorough) incl. hidden/underscore names, all:, nested modules, symlinks, bad names, glob metacharacters; file sets, accept/reject, embed.FS table order and bytes, and directive-line splitting must equal the spec's; `go list -json` is the self-validation.",
+    note="placement/type rules of //go:embed (compiler's job) are not covered; error classes compared for information only",
+    design="5 C16")
+
 NOT_YET = {}
 
 props = [json.loads(l) for l in open(os.path.join(V, "properties.jsonl"))]
